@@ -137,7 +137,7 @@ package comp
 
 //@ spec func covers(l Line, a int32) bool = a >= int32(l.Boundary[0]) && a < int32(l.Boundary[1])
 //@ spec func wfLine(c *LRUCache, l Line) bool = 0 <= int32(l.Boundary[0]) && int(l.Boundary[1]) - int(l.Boundary[0]) == c.lineLength && len(l.Data) == c.lineLength
-//@ spec func wfCache(c *LRUCache) bool = c.lineLength > 0 && c.lineLength <= 1048576 && c.numberOfLines >= 0 && (forall j :: 0 <= j && j < len(c.lines) ==> wfLine(c, c.lines[j]))
+//@ spec func wfCache(c *LRUCache) bool = c.lineLength > 0 && c.lineLength <= 1048576 && c.numberOfLines >= 0 && (forall a :: lo(c.lines) <= a && a < hi(c.lines) ==> wfLine(c, at(c.lines, a)))
 
 //@ func (Line).get
 //@   requires 0 <= int32(l.Boundary[0]) && int(l.Boundary[1]) - int(l.Boundary[0]) == len(l.Data)
@@ -394,3 +394,5 @@ package comp
 //@   trusted
 //@   ensures result >= 0
 //@   assigns nothing
+
+//@ spec func disjointLines(c *LRUCache) bool = forall i, j :: 0 <= i && i < j && j < len(c.lines) ==> int32(c.lines[i].Boundary[1]) <= int32(c.lines[j].Boundary[0]) || int32(c.lines[j].Boundary[1]) <= int32(c.lines[i].Boundary[0])
